@@ -4,6 +4,7 @@
 // code; unit U0 proves the code's classification functions equal to them.
 // ---------------------------------------------------------------------------------------------
 
+// KANI-TABLES-BEGIN (plain Rust apart from the `spec` keyword: also compiled into the Kani cross-check)
 spec fn always_finished(s: JobStateAlways) -> bool {
     s == JobStateAlways::FinishedSuccess || s == JobStateAlways::FinishedFailure
         || s == JobStateAlways::FinishedUpstreamFailure || s == JobStateAlways::FinishedAborted
@@ -52,6 +53,8 @@ spec fn upfailed(s: JobState) -> bool {
         || s == JobState::Output(JobStateOutput::FinishedUpstreamFailure)
         || s == JobState::Ephemeral(JobStateEphemeral::FinishedUpstreamFailure)
 }
+
+// KANI-TABLES-END
 
 spec fn edges_in_range(dag: &GraphType, len: nat) -> bool {
     &&& forall|a: usize, b: usize| #![trigger dag.has_edge(a, b)] dag.has_edge(a, b) ==> a < len && b < len && a != b
